@@ -21,7 +21,10 @@ def _variants(evname, role):
     if n == 4:
         return [('rj111', dec(P.AAssociateRjPDU, e2.std_rj(1, 1, 1))), ('rj232', dec(P.AAssociateRjPDU, e2.std_rj(2, 3, 2)))]
     if n == 6:
-        return [('rq', dec(P.AAssociateRqPDU, e2.std_rq()))]
+        rq = e2.std_rq()
+        # (protocol version: a receiver tests bit 0 only, PS3.8 9.3.2 - versions with further bits set are this version too)
+        return [('rq', dec(P.AAssociateRqPDU, rq)), ('rq-version-0003', dec(P.AAssociateRqPDU, rq[:6] + b'\x00\x03' + rq[8:])),
+                ('rq-version-ffff', dec(P.AAssociateRqPDU, rq[:6] + b'\xff\xff' + rq[8:]))]
     if n == 10:
         CT = '1.2.840.10008.5.1.4.1.1.2'
         data = _store_data()
